@@ -160,6 +160,27 @@ impl IrrDb {
         format!("A{}\n{}\nC\n", d.len() + 1, d)
     }
 
+    /// the full response to one query line on a connection whose source selection includes (`alt`) the source the
+    /// server carries but does not use by default
+    pub fn answer_sel(&self, q: &str, alt: bool) -> Option<String> {
+        if alt && !self.errors.contains_key(q) {
+            // ALT has one more route / route6 object for every AS that has any
+            for (pfx, extra, tbl) in [("!g", ALT_ROUTE4, &self.routes4), ("!6", ALT_ROUTE6, &self.routes6)] {
+                if let Some(asn) = q.strip_prefix(pfx) {
+                    let mut r = tbl.get(&asn.to_uppercase()).cloned().unwrap_or_default();
+                    if self.routes4.get(&asn.to_uppercase()).is_some_and(|x| !x.is_empty()) || self.routes6.get(&asn.to_uppercase()).is_some_and(|x| !x.is_empty()) {
+                        r.push(extra.to_string());
+                    }
+                    return Some(if r.is_empty() && !self.empty_as_c { "D\n".into() } else { self.padded(&r) });
+                }
+            }
+        }
+        if q == "!s-lc" {
+            return Some(Self::data(&[if alt { "TEST,ALT".to_string() } else { "TEST".to_string() }]));
+        }
+        self.answer(q)
+    }
+
     /// the full response to one query line
     pub fn answer(&self, q: &str) -> Option<String> {
         if q == "!!" {
@@ -321,6 +342,8 @@ pub fn start_irrd(db: IrrDb, mode: &str) -> FakeIrrd {
                 let _ = stream.set_nodelay(true);
                 let mut w = stream.try_clone().expect("clone");
                 let r = BufReader::new(stream);
+                // the source selection of this connection: the server carries TEST and ALT and uses TEST by default
+                let mut alt = false;
                 for line in r.lines() {
                     let Ok(line) = line else { break };
                     let q = line.trim_end().to_string();
@@ -343,8 +366,13 @@ pub fn start_irrd(db: IrrDb, mode: &str) -> FakeIrrd {
                             "D" => "D\n".to_string(),
                             _ => "F transient failure\n".to_string(),
                         }),
-                        None => db.answer(&q),
+                        None => db.answer_sel(&q, alt),
                     };
+                    if let Some(list) = q.strip_prefix("!s") {
+                        if list != "-lc" {
+                            alt = list == "-*" || list.split(',').any(|x| x.trim().eq_ignore_ascii_case("ALT"));
+                        }
+                    }
                     if let Some(a) = answer {
                         let piece = if db.dribble == 0 { a.len().max(1) } else { db.dribble };
                         let mut broken = false;
@@ -372,6 +400,10 @@ pub fn start_irrd(db: IrrDb, mode: &str) -> FakeIrrd {
 // =============================================================================================
 // denotation of route-filters over the prefix universe of spec/Rpsl.tla:
 // IPv4: every prefix of length 8..=11 under 10.0.0.0/8; IPv6: length 32..=34 under 2001:db8::/32
+
+/// what the source ALT adds to every AS that has routes (inside the prefix universe)
+pub const ALT_ROUTE4: &str = "10.224.0.0/11";
+pub const ALT_ROUTE6: &str = "2001:db8:c000::/34";
 
 pub const U4_ROOT: (u32, u8) = (0x0a00_0000, 8);
 pub const U4_MAXLEN: u8 = 11;
